@@ -88,6 +88,9 @@ ASSUMPTIONS = [
     "tolerance 3e-5 + 2e-14 x^3 y / min(mu20, mu02)",
 ]
 
+# both defects were repaired in /repo (3735645, 726e2fa; known_findings.json
+# lists them as "fixed", which suppresses nothing): a recurrence is a
+# violation.  The matchers still name the class of inputs in the report.
 F_BORDER = "C18-contour-open-at-border"
 F_PERC = "C18-bright-perc-bg-off-array"
 
@@ -663,18 +666,9 @@ def do_mask(ctx, case):
     if cont is not None and len(cont) >= 3 and len(ctx.pool_contours) < 400:
         ctx.pool_contours.append(cont.tolist())
 
-    def chk3(model, flat=flat, tb=tb, npix=npix):
-        asis, fixed = model
-        if flat == fixed:
-            return None
-        if flat == asis and (tb or npix == 0):
-            # the unrepaired code: open contours at the border; this is the
-            # defect reported through the oracle (F_BORDER), not a
-            # disagreement between model and code
-            run.count("get_contour:as-is-variant")
-            return None
-        return "get_contour", flat
-    ctx.add("run_get_contour_both", r_img(rows_t), case, chk3)
+    def chk3(model, flat=flat):
+        return None if model == flat else ("get_contour", flat)
+    ctx.add("run_get_contour", r_img(rows_t), case, chk3)
     run.record_case(case, nontrivial)
 
 
